@@ -474,5 +474,14 @@ PROPS["C05"]["explanation"] += " (PREREADSEEK) a bit-I/O routine that fills the 
 PROPS["C06"]["rules"] = PROPS["C06"]["rules"] + [rules_conv.rule_flavour_mask_operand]
 PROPS["C06"]["explanation"] = PROPS["C06"]["explanation"].replace(" Not decided: that other callers", " (NTMASK) the flavour flags DFNT_LITEND/DFNT_NATIVE are never applied to a value of type nc_type. Not decided: that other callers")
 
+PROPS["C08"]["rules"] = PROPS["C08"]["rules"] + [rules_idioms.rule_member_pair_compare]
+PROPS["C08"]["explanation"] += " (MEMBERPAIR) a look-up of a member in a Vgroup's tag/ref arrays compares tag and ref at the same index."
+
+PROPS["C08"]["rules"] = PROPS["C08"]["rules"] + [rules_idioms.rule_internal_class_match]
+PROPS["C08"]["explanation"] += " (INTERNALCLS) the reserved-class predicates compare over the length of the reserved name, never of the user's class."
+
+PROPS["C11"]["rules"] = PROPS["C11"]["rules"] + [rules_ann.rule_fileinfo_groups]
+PROPS["C11"]["explanation"] += " (ANINFO) each of the four count groups of ANfileinfo names one annotation type throughout and stores into one out-parameter."
+
 NOT_APPLICABLE = {}
 
